@@ -67,7 +67,9 @@ def plainOps : List String :=
    "addss", "addsd", "subss", "subsd", "mulss", "mulsd", "divss", "divsd",
    "cvtsi2ssl", "cvtsi2sdl", "cvtsi2ssq", "cvtsi2sdq", "cvtsi2sd", "cvttss2sil", "cvttss2siq",
    "cvttsd2sil", "cvttsd2siq", "cvtss2sd", "cvtsd2ss", "inc", "dec", "xchg", "lock cmpxchg",
-   "rep stosb", "data16 lea", "rex64", "addq", "call"]
+   "rep stosb", "data16 lea", "rex64", "addq", "call",
+   -- added for the cast strings of /repo cb60798, d20bf97 (u64 -> f32, floating -> u64 >= 2^63)
+   "cvtsi2ss", "comiss", "comisd", "btc"]
 
 def jumpOps : List String :=
   ["jmp", "je", "jne", "jbe", "js", "jns", "ja", "jae", "jb", "jl", "jle", "jg", "jge", "jp", "jnp", "jz", "jnz"]
